@@ -96,9 +96,9 @@ def digest(obj, deep=False, _depth=0, _seen=None, ident=True, skip=frozenset()):
     return Opaque(obj, _probe(obj) if deep else None)
 
 
-def conn_digest(conn, deep=False):
+def conn_digest(conn, deep=False, also_skip=()):
     """Everything a QuicConnection holds (recursively, every attribute) except its logs."""
-    return digest(conn, deep, skip=SKIP_LOG)
+    return digest(conn, deep, skip=SKIP_LOG | frozenset(also_skip))
 
 
 def crypto_digest(conn, deep=False, ident=True):
